@@ -81,12 +81,12 @@ def _fr(x):
 def dyn_fast(w):
     """same value as gridw.RealWorld.dyn_wire (attack worlds have no orientation agents)"""
     idx = w.idx
-    cells = [[idx[k] for k in cell] if cell else [] for cell in w.grid._internal.reshape(-1)]
+    cells = [[idx[k] for k in cell] if cell else [] for cell in w.grid[:, :].reshape(-1)]
     sts = []
     for a in w.agent_list:
-        pos = a._position
-        sts.append([[int(pos[0]), int(pos[1])], _fr(a._health), bool(a.active),
-                    int(getattr(a, "_ammo", 0)), 0])
+        pos = a.position
+        sts.append([[int(pos[0]), int(pos[1])], _fr(a.health), bool(a.active),
+                    int(getattr(a, "ammo", 0)), 0])
     return [cells, sts]
 
 
